@@ -123,3 +123,24 @@ Print Assumptions C10_translated_contexts_are_reflected.
 Theorem C10_translated_supported_versions : gen_supported_versions_wire = Ok supported_versions_wire.
 Proof. exact gen_supported_versions_wire_model. Qed.
 Print Assumptions C10_translated_supported_versions.
+
+(* ---- the key set-up of Server::new AS TRANSLATED (three consecutive statements): with a plaintext seed it builds
+   exactly the model's server — the IETF responder first, then the classic one, BOTH certified under the one
+   long-term key made from the configured seed, each with its own fresh online key — or fails where the model
+   fails; with any other kms_protection this build refuses to come up ---- *)
+Theorem C10_translated_server_keys_is_model :
+  forall H, HashLen H -> forall ed_pk ed_sign oi oc c cfg,
+  lc_kms c = KPlaintext ->
+  ok_any (gen_server_new_keys oi oc H ed_pk ed_sign c)
+  = match ok_opt (server_new H ed_pk ed_sign cfg (lc_seed c) oi oc) with
+    | Some s => Some ((lc_seed c, s_srv_value s), s_ietf s, s_classic s)
+    | None => None
+    end.
+Proof. exact gen_server_new_keys_model. Qed.
+Print Assumptions C10_translated_server_keys_is_model.
+
+Theorem C10_translated_server_keys_refuses_kms :
+  forall H ed_pk ed_sign oi oc c,
+  lc_kms c <> KPlaintext -> gen_server_new_keys oi oc H ed_pk ed_sign c = Panic site_gen.
+Proof. exact gen_server_new_keys_refuses_kms. Qed.
+Print Assumptions C10_translated_server_keys_refuses_kms.
